@@ -31,6 +31,8 @@ def gen_cases(tier, seed):
         yield {'s': seed * 1000003 + i, 'cut': False, 'raw_ts': False, 'long': True}
     for i in range(N[tier] // 8):
         yield {'s': seed * 1000003 + i, 'cut': False, 'raw_ts': i % 2 == 0, 'short_middle': True}
+    for i in range(N[tier] // 8):
+        yield {'s': seed * 1000003 + i, 'cut': False, 'raw_ts': False, 'same_total': True}
 
 
 def shard_setup(ctx):
@@ -57,6 +59,10 @@ def build(case):
     if case.get('long'):
         from checks.c05 import long_file
         segs = long_file(rng)
+        return segs, M.encode_file(segs)[0], None, rng
+    if case.get('same_total'):
+        from checks.c05 import same_total_file
+        segs = same_total_file(rng)
         return segs, M.encode_file(segs)[0], None, rng
     if case.get('short_middle'):
         from checks.c05 import short_middle_file
